@@ -477,8 +477,9 @@ class Check:
             pc = {"theorems": [], "assumptions": [], "cmd": "", "ok": False, "printed": 0, "bad_axioms": []}
             make_cmd = ""
             if ok:
-                if tier == "thorough":
-                    sh("make clean", cwd=COQ) if os.path.exists(os.path.join(COQ, "Makefile")) else None
+                # thorough: no `make clean` of the shared tree (other checks may be building in it);
+                # make's dependency tracking rebuilds what changed and coqchk below re-checks the
+                # compiled closure independently
                 target = self.props_file.replace(".v", ".vo")
                 mok, mout, make_cmd = coq_make([target] + [f"Model/{m}.vo" for m in self.models])
                 if not mok:
